@@ -125,9 +125,28 @@ def chain_body(desc, ctx):
         elif desc["timing"] == "during":
             ct = s.spawn(complete_input, name="finisher")
         out = src
-        for j, (flat, fn, ef) in enumerate(desc["stages"]):
-            s.yield_point("api")
-            out = (f_flat_map if flat else f_map)(out, mk(fn, ctx.calls[j][0]), mk(ef, ctx.calls[j][1]))
+        if desc["timing"] == "race2":
+            # the first stage exists; a finisher thread completes the input while a builder thread attaches the remaining stages
+            # (main only waits: the two racing threads are the only runnable ones, which is what the systematic enumeration of
+            # suspension PAIRS in `extended_search` needs)
+            (flat, fn, ef) = desc["stages"][0]
+            first = (f_flat_map if flat else f_map)(out, mk(fn, ctx.calls[0][0]), mk(ef, ctx.calls[0][1]))
+            box = [first]
+
+            def build_rest():
+                o = box[0]
+                for j, (flat, fn, ef) in list(enumerate(desc["stages"]))[1:]:
+                    s.yield_point("api")
+                    o = (f_flat_map if flat else f_map)(o, mk(fn, ctx.calls[j][0]), mk(ef, ctx.calls[j][1]))
+                box[0] = o
+            ct = s.spawn(complete_input, name="finisher")
+            bt = s.spawn(build_rest, name="builder")
+            s.block(lambda: ct.state == "done" and bt.state == "done", None, ("cjoin", ct.tid))
+            out = box[0]
+        else:
+            for j, (flat, fn, ef) in enumerate(desc["stages"]):
+                s.yield_point("api")
+                out = (f_flat_map if flat else f_map)(out, mk(fn, ctx.calls[j][0]), mk(ef, ctx.calls[j][1]))
         ctx.out = out
         if desc["timing"] == "after":
             ct = s.spawn(complete_input, name="finisher")
@@ -200,14 +219,16 @@ def run_chain(desc):
         # the same fold through the Lean model, stage by stage
         cur = desc["inp"]
         lean_calls = []
-        for (flat, fn, ef) in desc["stages"]:
+        for (flat, fn, ef) in ([] if desc.get("no_oracle") else desc["stages"]):
             out = leanval.validate_blocks([["S oracle", "k7.resolve %d %s %s %s" % (flat, fn, ef, cur), "."]])[0][len("ORACLE "):]
             cur = out.split(" ")[0]
             lean_calls.append(out.split(" ", 1)[1])
-        verdicts.append("OK 1 1" if (cur, lean_calls) == got else "DIVERGE 1 [chain %r] real=%r lean=%r" % (desc["stages"], got, (cur, lean_calls)))
+        if not desc.get("no_oracle"):
+            verdicts.append("OK 1 1" if (cur, lean_calls) == got else "DIVERGE 1 [chain %r] real=%r lean=%r" % (desc["stages"], got, (cur, lean_calls)))
     verdicts += protocol_verdicts(s)
     return {"hits": hits, "blocks": [], "verdicts": verdicts, "stats": {"yields": s.nyields, "family_chain": 1, "chain_%s" % desc["timing"]: 1},
-            "schedule": list(s.chooser.record), "fingerprint": fingerprint(desc, s) if got is not None else None}
+            "schedule": list(s.chooser.record), "fingerprint": fingerprint(desc, s) if got is not None else None,
+            "hot_counts": dict(getattr(s.chooser, "hot_count", {}))}
 
 
 def gen_scenarios(seed, tier):
@@ -464,7 +485,38 @@ def run_one(desc):
     return r
 
 
+def pair_race_search(budget_s=90):
+    """systematic search for a lost / duplicated callback: a finisher completes the input of a two-stage chain while a builder
+    attaches the second stage to the first stage's (library) future; every PAIR of suspension points (finisher at its i-th hot yield,
+    builder at its j-th) is tried - held threads are released oldest first, which realises `A pauses inside its window, B runs into
+    its own and pauses, A finishes, B resumes`, the shape of a check-then-act race against an unlocked state change"""
+    import time as _t
+    t0 = _t.time()
+    base = dict(family="chain", stages=[[0, "ret110", "none"], [0, "ret120", "none"]], inp="ok5", timing="race2", idx=1, seed=1,
+                mode="holdat", p_switch=0.0, trace_lines=True, hold_at=None)
+    base["no_oracle"] = True
+    # thread ids in spawn order; the finisher has about 16 hot yields, the builder about 115 (f_map builds two internal executors);
+    # a placement beyond a thread's last hot yield never suspends it
+    fin, bld = 1, 2
+    for sd in (1,):
+        for i in range(1, 25):
+            for j in range(1, 141):
+                if _t.time() - t0 > budget_s:
+                    return None
+                d = dict(base, seed=sd, hold_at=[[fin, i], [bld, j]])
+                r = run_chain(d)
+                for h in r["hits"]:
+                    h = dict(h)
+                    h["desc"] = d
+                    h["schedule"] = r["schedule"]
+                    return h
+    return None
+
+
 def extended_search(seed, tier, broken):
+    h = pair_race_search(90 if tier == "quick" else 600)
+    if h is not None:
+        return h
     for d in gen_scenarios(seed + 1, "quick"):
         r = run_one(d)
         for h in r["hits"]:
